@@ -102,14 +102,32 @@ def run_cases(vh, cases, stress_ms=0, race=False, sd=1):
         if stress_ms:
             cmd += ["-stress", str(stress_ms)]
         rc, o, e = run(cmd, timeout=3000, env=env)
+        crashed = None
         if rc != 0:
-            raise Broken("vh calls-cases failed: " + e[-3000:])
-        trace = [json.loads(l) for l in open(sc.path("trace.ndjson")) if l.strip()]
+            # the Go runtime ends the process when it catches unsynchronised map access ("fatal error: concurrent
+            # map ..."), and memory shared with readers that write to their copies can crash the library: under the
+            # stress run that is the data race itself, not a failure of the harness
+            m = re.search(r"(fatal error: concurrent map[^\n]*|WARNING: DATA RACE)", e)
+            if stress_ms and m:
+                k = e.find(m.group(1))
+                crashed = e[max(0, k - 200):k + 2800]
+            else:
+                raise Broken("vh calls-cases failed: " + e[-3000:])
+        trace = []
+        if os.path.exists(sc.path("trace.ndjson")):
+            for l in open(sc.path("trace.ndjson")):
+                try:
+                    trace.append(json.loads(l))
+                except ValueError:
+                    pass
+        if crashed is not None:
+            trace.append({"ev": "stress", "reads": 0, "mixed": 0, "calls": 0, "stuck": 0, "disconnects": 0, "monitors_added": 0,
+                          "monitors_cancelled": 0, "races": 1, "report": "the process was ended by the Go runtime: " + crashed, "dump": ""})
         if race:
             reports = [r for r in e.split("==================") if "WARNING: DATA RACE" in r]
             ours = [r for r in reports if "libovsdb/client." in r or "libovsdb/cache." in r]
             for ev in trace:
-                if ev["ev"] == "stress":
+                if ev["ev"] == "stress" and crashed is None:
                     ev["races"] = len(ours)
                     ev["report"] = ours[0][:3000] if ours else ""
         for ev in trace:
